@@ -103,6 +103,32 @@ def refine_case(rng):
             "perm_seed": rng.randrange(1 << 30), "real": rng.random() < 0.08}
 
 
+def restart_then_merge_case(rng):
+    """ one profile with an early hit too far from the rest to be the same domain, followed by two (or three)
+        fragments that are one domain; the later fragments score no higher than the first of them (or do) """
+    name, length = rng.choice([m for m in MODEL_POOL if m[1] >= 50])
+    gap = int(1.5 * length) + rng.choice([0, 5, 60])
+    early_len = rng.choice([int(0.4 * length), int(0.7 * length)])
+    first = gap + early_len
+    piece = int(0.45 * length)
+    fragments = [[name, 0, early_len, float(rng.choice([20, 30, 60]))]]
+    scores = [float(rng.choice([50, 40])), float(rng.choice([20, 50, 60]))]
+    fragments.append([name, first, first + piece, scores[0]])
+    fragments.append([name, first + piece + rng.choice([0, 5]), first + 2 * piece + rng.choice([0, 5]), scores[1]])
+    if rng.random() < 0.3:
+        fragments.append([name, first + 2 * piece + 8, first + 2 * piece + 8 + int(0.2 * length), float(rng.choice([10, 50]))])
+    lengths = {name: length}
+    hsps = [["g1"] + frag + [evalue_of(frag[3])] for frag in fragments]
+    if rng.random() < 0.4:
+        other, other_len = rng.choice([m for m in MODEL_POOL if m[0] != name])
+        lengths[other] = other_len
+        start = rng.choice([first - 10, first + piece, 10])
+        hsps.append(["g1", other, start, start + int(0.8 * other_len), float(rng.choice([30, 55])), evalue_of(30.0)])
+    rng.shuffle(hsps)
+    return {"fn": "refine", "mode": rng.random() < 0.3, "lengths": lengths, "hsps": hsps, "split": [len(hsps)],
+            "perm_seed": rng.randrange(1 << 30), "real": False}
+
+
 def exhaustive_refine_universe(profiles, scores):
     """ every hit on the 6-point grid for the given (name, model length) profiles and scores """
     universe = []
